@@ -134,6 +134,35 @@ Definition okH (c : string * list float * list (list float) * float * list float
 """
 
 
+def integer_points(ctx):
+    """The point given with an integer type (list / tuple of Python ints, int64 / int32 arrays, zero and negative coordinates) and an f
+    that is integer valued there: the same Hessian as for the float array with the same coordinates."""
+    import numdifftools as nd
+    H0 = np.array([[2.0, 3.0, -1.0], [3.0, 0.0, 4.0], [-1.0, 4.0, 6.0]])
+
+    def f(x):
+        return x[0] * x[0] + 3 * x[0] * x[1] - x[0] * x[2] + 4 * x[1] * x[2] + 3 * x[2] * x[2]
+    for xi in ([1, -2, 0], [3, 1, -4]):
+        variants = [('list of Python ints', list(xi)), ('tuple of Python ints', tuple(xi)), ('int64 array', np.array(xi, dtype=np.int64)), ('int32 array', np.array(xi, dtype=np.int32))]
+        for method in METHODS:
+            for cname in ('Hessian', 'Hessdiag'):
+                if cname == 'Hessdiag' and method == 'central2':
+                    continue
+                want = H0 if cname == 'Hessian' else np.diag(H0)
+                for vname, xv in variants:
+                    desc = {'class': cname, 'method': method, 'x': list(xi), 'x_given_as': vname, 'f': 'x0^2 + 3 x0 x1 - x0 x2 + 4 x1 x2 + 3 x2^2 (integer valued at integer points)'}
+                    try:
+                        got = np.asarray(getattr(nd, cname)(f, method=method)(xv))
+                    except Exception as ex:   # noqa
+                        ctx.violation('integer-point-raises:%s:%s' % (cname, method), 'nd.%s(f, method=%r)(x given as %s) raises %r' % (cname, method, vname, ex), desc)
+                        continue
+                    ctx.count(1, ('integer-point', cname, method))
+                    tol = 1e-6 * (100 if method in ('forward', 'backward') else 1)
+                    if got.shape != want.shape or not np.all(np.abs(got - want) <= tol):
+                        ctx.violation('integer-point:%s:%s' % (cname, method), 'nd.%s(f, method=%r)(x = %r given as %s) differs from the exact Hessian of the quadratic by %.3g' % (
+                            cname, method, list(xi), vname, float(np.max(np.abs(got - want))) if got.shape == want.shape else float('nan')), dict(desc, got=np.real(got).tolist()))
+
+
 def stencil_cases(ctx, N):
     """bit-exact tie of the combination formulas of the real-step Hessian / Hessdiag stencils (Model/HessStencil.v):
     the source's static methods are called with a recording f; the recorded values (in evaluation order) are fed to the model."""
@@ -275,6 +304,7 @@ def run(ctx):
     ctx.cov['correspondence_disagreements'] = nbad + sbad
     ctx.cov['skipped'] = skipped
     search(ctx, ctx.n(10, 120))
+    integer_points(ctx)
     ctx.assumptions += ['proved: exact symmetry for any arithmetic given that the stencil copies (i,j) to (j,i) (observed on every recorded stencil output), exactness of every real-step Hessian/Hessdiag difference quotient on quadratics in any dimension; NOT proved: the complex / multicomplex quotients (they need the complexification of f) and the accuracy envelope for non-quadratic f -- both explored by the sweep against analytic Hessians',
                         'the evaluation points of the stencils are the subject of C05; their combination formulas (real-step Hessian forward/backward/central/central2 and Hessdiag) are tied bit-for-bit to Model/HessStencil.v, about which the quadratic-exactness theorems are stated']
     return ctx.finish(level='proof', checker_cmd='make -C coq Props/C04.vo Props/C04b.vo + coqc build/cases/C04_*.v',
